@@ -106,6 +106,27 @@ pub fn eval(c: &Case, obs: &mut Obs) -> Result<(), String> {
             }
         }
     }
+    // ELF: a string-table header behind the declared size is not part of the
+    // tag. sections() may refuse such a tag; if it does not, no name may be
+    // resolved through bytes outside the extent (same rule as C19).
+    if !c.hdr && c.kind == 9 && size >= 20 && size <= img.len() && matches!(got.get("t0.s.new"), Some(Val::Ok)) {
+        let (n, es, shndx) = (le32(img, 8) as u64, le32(img, 12) as u64, le32(img, 16) as u64);
+        if matches!(expect_mbi::elf_shape(n, es, shndx, (size - 20) as u64), expect_mbi::ElfShape::ShndxOutside) {
+            obs.class("elf-strtab-header-behind-extent");
+            match sbx::with_guarded(img, 8, Place::End, |p, l| super::c19::exercise(p, l, true, l)) {
+                Boxed::Done(t2) => {
+                    for (k, v) in &t2.lines {
+                        if k.ends_with(".name") && !v.is_panic() {
+                            d.push(format!("ELF: {k} = {} is resolved through a string-table header at index {shndx}, behind the {} section bytes the size leaves", v.render(), size - 20));
+                            break;
+                        }
+                    }
+                }
+                Boxed::Crash(s) => d.push(format!("ELF: resolving a name through a string-table header behind the declared size crashed: {s}")),
+                Boxed::Inconclusive(w) => obs.inconclusive(w),
+            }
+        }
+    }
     if d.is_empty() {
         Ok(())
     } else {
@@ -135,6 +156,27 @@ fn enumerate(ctx: &Ctx) -> Box<dyn Iterator<Item = Case>> {
             let exact = mb2_model::encode::conformant_tag(kind, 0xC05, n, 0).len() as u32;
             for size in [exact, exact - 1, exact - 8, exact + 1] {
                 v.push(Case { hdr: false, kind, img: Hex(sweep_image(false, kind, n, 0, size)) });
+            }
+        }
+    }
+    // ELF: string-table indices that mean something in ELF itself (SHN_XINDEX,
+    // SHN_ABS, SHN_COMMON, SHN_LORESERVE) or lie at / behind the last header,
+    // combined with a first header whose sh_link is used / unused: the string
+    // table header must be one of the headers the size leaves in the tag
+    for n in [1usize, 2, 5] {
+        for sel in [0u32, 1] {
+            let es = if sel & 1 == 0 { 40usize } else { 64 };
+            let exact = (20 + n * es) as u32;
+            let link_at = 20 + if es == 40 { 24 } else { 40 };
+            for shndx in [0xffffu32, 0xfff1, 0xfff2, 0xff00, n as u32 - 1, n as u32, n as u32 + 1, 0x1_0000, u32::MAX] {
+                for link in [0u32, 1, n as u32 - 1, n as u32, n as u32 + 1, 0xffff, 0x7fff_ffff] {
+                    for size in [exact, exact - 1, exact - es as u32, exact + 1] {
+                        let mut img = sweep_image(false, 9, n, sel, size);
+                        put32(&mut img, 16, shndx);
+                        put32(&mut img, link_at, link);
+                        v.push(Case { hdr: false, kind: 9, img: Hex(img) });
+                    }
+                }
             }
         }
     }
